@@ -77,6 +77,61 @@ func Run(dir string, timeout time.Duration, stdin []byte, env []string, name str
 // Flags of the compile command per language.
 var Flags = map[string]string{"lua": "-l", "rust": "-r", "go": "-g", "java": "-j", "python": "-p", "cpp": "-c"}
 
+// LongFlags are the long spellings of the same flags.
+var LongFlags = map[string]string{"lua": "--lua_output", "rust": "--rs_output", "go": "--go_output", "java": "--java_output", "python": "--py_output", "cpp": "--cpp_output", "file": "--file", "dsl": "--dsl"}
+
+// ShortFlags: every flag of both commands by a neutral name.
+var ShortFlags = map[string]string{"lua": "-l", "rust": "-r", "go": "-g", "java": "-j", "python": "-p", "cpp": "-c", "file": "-f", "dsl": "-d"}
+
+// FlagArgs spells one flag with its value in one of the forms the flag library accepts:
+// 0 `-g v`, 1 `--go_output v`, 2 `--go_output=v`, 3 `-g=v` (4 `-gv`, only for values that do
+// not start with `=` or `-`).
+func FlagArgs(name string, style int, value string) []string {
+	switch style {
+	case 1:
+		return []string{LongFlags[name], value}
+	case 2:
+		return []string{LongFlags[name] + "=" + value}
+	case 3:
+		return []string{ShortFlags[name] + "=" + value}
+	case 4:
+		if value != "" && value[0] != '=' && value[0] != '-' {
+			return []string{ShortFlags[name] + value}
+		}
+	}
+	return []string{ShortFlags[name], value}
+}
+
+// Respell rewrites a command line written with short flags (`-g dir`) into another of the
+// spellings the flag library accepts, chosen per flag by a hash of salt (so a case is always
+// spelled the same way). Half of the command lines are left as they are.
+func Respell(args []string, salt string) []string {
+	h := func(i int) int {
+		x := uint32(2166136261)
+		for _, c := range []byte(fmt.Sprintf("%s#%d", salt, i)) {
+			x = (x ^ uint32(c)) * 16777619
+		}
+		return int(x>>8) & 0xffff
+	}
+	if h(-1)%2 == 0 {
+		return args
+	}
+	byShort := map[string]string{}
+	for n, f := range ShortFlags {
+		byShort[f] = n
+	}
+	var out []string
+	for i := 0; i < len(args); i++ {
+		if n, ok := byShort[args[i]]; ok && i+1 < len(args) {
+			out = append(out, FlagArgs(n, h(i)%5, args[i+1])...)
+			i++
+			continue
+		}
+		out = append(out, args[i])
+	}
+	return out
+}
+
 // ReadTree returns all regular files under dir (relative path -> content).
 func ReadTree(dir string) map[string][]byte {
 	out := map[string][]byte{}
